@@ -76,7 +76,10 @@ func init() {
 		staticModels[pre+"Load"] = &model{name: pre + "Load (sequentially consistent)", mods: noMods,
 			run: func(c *VCtx, fr *Frame, st *State, cc *ssa.CallCommon, args []Val, res types.Type) Val {
 				c.atomicPoint(fr, st, loc(c, args))
-				return c.load(nil, st, loc(c, args), cc.Pos())
+				v := c.load(nil, st, loc(c, args), cc.Pos())
+				c.lastAtomicRet = v
+				c.atomicDone(fr, st, loc(c, args))
+				return v
 			}}
 		staticModels[pre+"Store"] = &model{name: pre + "Store", mods: func(c *VCtx, cc *ssa.CallCommon) map[string]Sort {
 			return map[string]Sort{"F:sync/atomic." + tn + ".v": ArrSort(SRef, SInt)}
@@ -84,6 +87,7 @@ func init() {
 			run: func(c *VCtx, fr *Frame, st *State, cc *ssa.CallCommon, args []Val, res types.Type) Val {
 				c.atomicPoint(fr, st, loc(c, args))
 				c.store(nil, st, loc(c, args), args[1], cc.Pos())
+				c.lastAtomicRet = nil
 				c.atomicDone(fr, st, loc(c, args))
 				return nil
 			}}
@@ -94,6 +98,7 @@ func init() {
 				c.atomicPoint(fr, st, loc(c, args))
 				old := c.load(nil, st, loc(c, args), cc.Pos())
 				c.store(nil, st, loc(c, args), args[1], cc.Pos())
+				c.lastAtomicRet = old
 				c.atomicDone(fr, st, loc(c, args))
 				return old
 			}}
@@ -106,6 +111,7 @@ func init() {
 				nv := c.name("atadd", wrap(Add(old, c.asTerm(args[1])), wrapOf))
 				nv.GT = wrapOf
 				c.store(nil, st, loc(c, args), nv, cc.Pos())
+				c.lastAtomicRet = nv
 				c.atomicDone(fr, st, loc(c, args))
 				return nv
 			}}
@@ -117,6 +123,7 @@ func init() {
 				old := c.asTerm(c.load(nil, st, loc(c, args), cc.Pos()))
 				ok := c.name("cas", Eq(old, c.asTerm(args[1])))
 				c.store(nil, st, loc(c, args), Ite(ok, c.asTerm(args[2]), old), cc.Pos())
+				c.lastAtomicRet = ok
 				c.atomicDone(fr, st, loc(c, args))
 				return ok
 			}}
@@ -136,12 +143,16 @@ func init() {
 		staticModels[pre+"Load"] = &model{name: pre + "Load", mods: noMods,
 			run: func(c *VCtx, fr *Frame, st *State, cc *ssa.CallCommon, args []Val, res types.Type) Val {
 				c.atomicPoint(fr, st, loc(c, args))
-				return Not(Eq(c.asTerm(c.load(nil, st, loc(c, args), cc.Pos())), IntLit(0)))
+				v := c.name("aload", Not(Eq(c.asTerm(c.load(nil, st, loc(c, args), cc.Pos())), IntLit(0))))
+				c.lastAtomicRet = v
+				c.atomicDone(fr, st, loc(c, args))
+				return v
 			}}
 		staticModels[pre+"Store"] = &model{name: pre + "Store", mods: mods,
 			run: func(c *VCtx, fr *Frame, st *State, cc *ssa.CallCommon, args []Val, res types.Type) Val {
 				c.atomicPoint(fr, st, loc(c, args))
 				c.store(nil, st, loc(c, args), b2i(c.asTerm(args[1])), cc.Pos())
+				c.lastAtomicRet = nil
 				c.atomicDone(fr, st, loc(c, args))
 				return nil
 			}}
@@ -151,6 +162,7 @@ func init() {
 				old := Not(Eq(c.asTerm(c.load(nil, st, loc(c, args), cc.Pos())), IntLit(0)))
 				old = c.name("aswap", old)
 				c.store(nil, st, loc(c, args), b2i(c.asTerm(args[1])), cc.Pos())
+				c.lastAtomicRet = old
 				c.atomicDone(fr, st, loc(c, args))
 				return old
 			}}
@@ -160,6 +172,7 @@ func init() {
 				old := Not(Eq(c.asTerm(c.load(nil, st, loc(c, args), cc.Pos())), IntLit(0)))
 				ok := c.name("cas", Eq(old, c.asTerm(args[1])))
 				c.store(nil, st, loc(c, args), b2i(Ite(ok, c.asTerm(args[2]), old)), cc.Pos())
+				c.lastAtomicRet = ok
 				c.atomicDone(fr, st, loc(c, args))
 				return ok
 			}}
@@ -177,12 +190,15 @@ func init() {
 			run: func(c *VCtx, fr *Frame, st *State, cc *ssa.CallCommon, args []Val, res types.Type) Val {
 				c.atomicPoint(fr, st, loc(c, args))
 				v := c.asTerm(c.load(nil, st, loc(c, args), cc.Pos()))
+				c.lastAtomicRet = v
+				c.atomicDone(fr, st, loc(c, args))
 				return c.typed(TG(SRef, res, v.S), res)
 			}}
 		staticModels[pre+"Store"] = &model{name: pre + "Store", mods: mods,
 			run: func(c *VCtx, fr *Frame, st *State, cc *ssa.CallCommon, args []Val, res types.Type) Val {
 				c.atomicPoint(fr, st, loc(c, args))
 				c.store(nil, st, loc(c, args), c.asTerm(args[1]), cc.Pos())
+				c.lastAtomicRet = nil
 				c.atomicDone(fr, st, loc(c, args))
 				return nil
 			}}
@@ -191,6 +207,7 @@ func init() {
 				c.atomicPoint(fr, st, loc(c, args))
 				old := c.asTerm(c.load(nil, st, loc(c, args), cc.Pos()))
 				c.store(nil, st, loc(c, args), c.asTerm(args[1]), cc.Pos())
+				c.lastAtomicRet = old
 				c.atomicDone(fr, st, loc(c, args))
 				return c.typed(TG(SRef, res, old.S), res)
 			}}
@@ -200,6 +217,7 @@ func init() {
 				old := c.asTerm(c.load(nil, st, loc(c, args), cc.Pos()))
 				ok := c.name("cas", Eq(old, c.asTerm(args[1])))
 				c.store(nil, st, loc(c, args), Ite(ok, c.asTerm(args[2]), old), cc.Pos())
+				c.lastAtomicRet = ok
 				c.atomicDone(fr, st, loc(c, args))
 				return ok
 			}}
